@@ -772,6 +772,23 @@ func (c *Ctx) ParamsDoc(withPathVars bool, withBodies ...bool) *Doc {
 				in := rapid.SampledFrom([]string{"query", "query", "header"}).Draw(t, "op_in")
 				op.Parameters = append(op.Parameters, mkParam(in, "operation"))
 			}
+			// a header parameter whose Go field name equals that of a query parameter of the
+			// same operation (query trace_id beside header Trace-Id): different locations,
+			// different structs
+			for _, qp := range append([]*Parameter{}, op.Parameters...) {
+				if qp.Ref == "" && qp.In == "query" && rapid.IntRange(0, 5).Draw(t, "twin_header") == 0 {
+					letters := strings.Map(func(r rune) rune {
+						if r >= 'a' && r <= 'z' || r >= 'A' && r <= 'Z' || r >= '0' && r <= '9' {
+							return r
+						}
+						return -1
+					}, qp.Name)
+					if len(letters) == len(strings.NewReplacer("_", "", "-", "").Replace(qp.Name)) && len(letters) > 2 {
+						op.Parameters = append(op.Parameters, &Parameter{Name: "X-" + letters, In: "header", Schema: &Schema{Type: "string"}}, &Parameter{Name: strings.ToUpper(letters[:1]) + letters[1:], In: "header", Schema: &Schema{Type: "string"}})
+						c.Tag("param:header-twin-of-query")
+					}
+				}
+			}
 			// override a path-item level parameter with a different declaration
 			for _, pl := range pi.Parameters {
 				r := d.ResolveParameter(pl)
